@@ -249,13 +249,26 @@ theorem reclaimPass_deletes {st : St} (hI : Inv st) (now : Nat) :
 theorem dropHolder_timeout (st : St) (x : Holder) : (st.dropHolder x).timeout = st.timeout := by
   unfold St.dropHolder; split <;> rfl
 
+theorem promote_timeout (st : St) (x : Nat × Nat) (due : Nat) : (st.promote x due).timeout = st.timeout := by
+  unfold St.promote; split <;> rfl
+
+theorem flushDelayed_timeout (st : St) (sid : Nat) : (st.flushDelayed sid).timeout = st.timeout := by
+  unfold St.flushDelayed
+  split
+  · rfl
+  · split
+    · rfl
+    · split
+      · rfl
+      · rw [promote_timeout]; rfl
+
 theorem retransmit_timeout (st : St) (x : Holder) : (st.retransmit x).timeout = st.timeout := by
   unfold St.retransmit
   split
   · split
     · split
       · rfl
-      · rw [dropHolder_timeout]; rfl
+      · rw [dropHolder_timeout, flushDelayed_timeout]; rfl
     · rfl
   · rfl
 
